@@ -101,13 +101,19 @@ func (r *Reader) ReadFrame() (Frame, error) {
 		nl := binary.BigEndian.Uint32(lens[:4])
 		vl := binary.BigEndian.Uint32(lens[4:])
 
-		nv := make([]byte, int(nl+vl))
-		if _, err := io.ReadFull(r.r, nv); err != nil {
+		// nl and vl are untrusted 32-bit values whose sum may not fit in 32 bits, so the name and
+		// the value are read one after the other instead of sizing a single buffer from nl+vl.
+		name := make([]byte, nl)
+		if _, err := io.ReadFull(r.r, name); err != nil {
+			return nil, err
+		}
+		value := make([]byte, vl)
+		if _, err := io.ReadFull(r.r, value); err != nil {
 			return nil, err
 		}
 
-		hf.Name = string(nv[:nl])
-		hf.Value = string(nv[nl:])
+		hf.Name = string(name)
+		hf.Value = string(value)
 
 		return hf, nil
 	case DataFrame:
